@@ -7,7 +7,7 @@ from .. import model as M
 ID = "C07"
 RULE = ("Sentences of the reference grammar from the typed program generator over an adversarial identifier pool (names that "
         "begin with / contain a DSL keyword: order_id, index, inbox, android, notify, not_active, iffy, define, in_x, not_in ...; "
-        "_ , _x, upper / camel case, single letters; the experiment's own name as a field; fields shared between splitters and "
+        "_ , _x, upper / camel case, single letters; the experiment's own name as a field; experiments named like helpers of the generated code (partial, str, map ...); string literals and salts hostile to naive embedding (trailing backslash, quotes, braces, {field} templates, percent, compatibility characters); fields shared between splitters and "
         "conditions), identifiers and nested / one-element tuples inside tuples, all operators, both quote styles, redundant "
         "parentheses; plus large shapes (else-if chains up to 60, nesting up to 12, 64 groups, predicate depth 12). Every "
         "generated text is first confirmed to be a sentence by the independent Earley recogniser. Oracle: construction "
@@ -22,7 +22,10 @@ ASSUMPTIONS = [
 SHARDS = {"quick": 1, "thorough": 16}
 
 POOL = gen.ADVERSARIAL_POOL + gen.PLAIN_POOL[:8]
-NAMES = gen.EXP_NAMES + ["index", "order", "notify", "define", "android", "inbox", "_", "X", "in_", "iffy", "return_"]
+NAMES = gen.EXP_NAMES + ["index", "order", "notify", "define", "android", "inbox", "_", "X", "in_", "iffy", "return_",
+                         # names of the generated code's helpers are legal EXPERIMENT names (only as fields they are K1)
+                         "partial", "deterministic_choice", "str", "map", "kwargs", "self", "choose_experiment_variant",
+                         "ExperimentConditionalFailedError"]
 KW_PREFIXES = ("def", "salt", "splitters", "if", "else", "weighted", "return", "and", "or", "not", "in")
 
 
@@ -40,22 +43,23 @@ def cases(draw):
         nm = draw(st.sampled_from(["index", "order", "exp_x", "notify"]))
         names = [nm]
         pool = [nm] + POOL[:10]
-    c = draw(gen.program_cases(pool=pool, names=names, n_inputs=(3, 6), max_fields=6))
+    c = draw(gen.program_cases(pool=pool, names=names, n_inputs=(3, 6), max_fields=6, tricky=draw(st.booleans())))
     c["shape"] = "typed"
     return c
 
 
-def known_ids():
+def known_ids(role="field"):
     for k in runner.known_for("C07"):
         if k.get("id") == "K1":
-            return set(k.get("identifiers", []))
+            return set(k.get("identifiers" if role == "field" else "name_identifiers", []))
     return set()
 
 
 def known_filter(case, viol):
     if not isinstance(case, dict) or "prog" not in case:
         return None
-    if set(M.all_identifiers(case["prog"])) & known_ids():
+    prog = case["prog"]
+    if set(M.all_fields(prog)) & known_ids("field") or prog["name"] in known_ids("name"):
         return "K1"
     return None
 
@@ -116,7 +120,7 @@ def judge_text(case):
     if refgrammar.classify(text) != "accept":
         return {"viol": [], "nontrivial": False, "tags": ["text:not-a-sentence"]}
     ids = {t for ty, t in refgrammar.lex(text) if ty == "ID"}
-    if ids & (known_ids() | gen.AMBIGUOUS_NAMES):
+    if ids & (known_ids("field") | known_ids("name") | gen.AMBIGUOUS_NAMES):
         return {"viol": [], "nontrivial": False, "tags": ["text:k1"]}
     res = sut.compile_text(text)
     viol = [] if res[0] == "ok" else ["grammatical text does not compile: %s: %s | %r" % (res[1], res[2], text)]
@@ -155,8 +159,8 @@ def run(ctx, rec):
             v = judge(probe)
             rec.count("k1_probe")
             if v["viol"]:
-                if set(M.all_identifiers(probe["prog"])) & kids:
-                    still.append(sorted(set(M.all_identifiers(probe["prog"])) & kids)[0])
+                if known_filter(probe, v["viol"]):
+                    still.append(sorted((set(M.all_fields(probe["prog"])) & kids) or {probe["prog"]["name"]})[0])
                 else:
                     rec.violation("k1-probe", probe, v["viol"])
                     return
